@@ -77,11 +77,11 @@ def realise_step(j):
 
 # (step 5 is an item step whose literal is None, step 3 a path part that is None: a step may carry any
 # literal, also the one the wildcard steps use as their placeholder argument)
-KINDS = {1: 'a', 2: T.b, 3: None, 4: 0, 5: T[None], 6: 'e.f', 7: T[1], 8: 'g', 9: T.h,
+KINDS = {1: 'a', 2: T.b, 3: None, 4: (1, 2), 5: T[None], 6: 'e.f', 7: T[1], 8: 0, 9: T.h,
          11: 'x', 12: T['y'], 13: T['c'], 99: 'other'}
 # what items() must list for each step, written down independently of the library
-EXPECT = {1: ('P', 'a'), 2: ('.', 'b'), 3: ('P', None), 4: ('P', 0), 5: ('[', None), 6: ('P', 'e.f'), 7: ('[', 1),
-          8: ('P', 'g'), 9: ('.', 'h'), 11: ('P', 'x'), 12: ('[', 'y'), 13: ('[', 'c'), 99: ('P', 'other')}
+EXPECT = {1: ('P', 'a'), 2: ('.', 'b'), 3: ('P', None), 4: ('P', (1, 2)), 5: ('[', None), 6: ('P', 'e.f'), 7: ('[', 1),
+          8: ('P', 0), 9: ('.', 'h'), 11: ('P', 'x'), 12: ('[', 'y'), 13: ('[', 'c'), 99: ('P', 'other')}
 
 
 def mk_path(steps):
@@ -160,6 +160,10 @@ def check_seq_(st):
             return 'items() differs from the tuple of steps'
         if p.values() != tuple(v for _, v in items_of(steps)):
             return 'values() differs from the step arguments'
+        # startswith with a string: the string stands for the single plain step ('P', text)
+        if p.startswith('a') != (n >= 1) or p.startswith('b') or Path(T.a, 'x').startswith('a') or Path(T['a']).startswith('a') \
+                or Path(glom.S.a).startswith('a') or not Path('a', T.b).startswith('a'):
+            return 'startswith(<text>) differs from the comparison with the plain step of that text'
         # wildcard steps are steps like any other (their argument is None)
         wp = Path(p, T.__star__(), 'w', T.__starstar__())
         tail = (('x', None), ('P', 'w'), ('X', None))
